@@ -1660,6 +1660,137 @@ impl<K: Hash + Eq, V, E: OnEvictCallback, S: BuildHasher> fmt::Debug for RawLRU<
     }
 }
 
+/// Verification hooks (feature `verif-hooks`): read-only structural audit of the list.
+#[cfg(feature = "verif-hooks")]
+impl<K, V, E, S> RawLRU<K, V, E, S> {
+    /// Walks the list from the head sentinel by `next` and from the tail sentinel by `prev`
+    /// (both walks bounded, so a corrupted list cannot hang the audit), and compares the
+    /// nodes found with the entries of the index by pointer identity. Returns the entries
+    /// from most to least recently used, or a description of the first inconsistency.
+    /// Never calls `Hash`/`Eq` of the keys.
+    #[allow(clippy::type_complexity)]
+    pub fn verif_audit(&self) -> Result<Vec<(&K, &V)>, alloc::string::String> {
+        use alloc::format;
+        let n = self.map.len();
+        let mut fwd: Vec<*mut EntryNode<K, V>> = Vec::with_capacity(n);
+        unsafe {
+            if self.head.is_null() || self.tail.is_null() {
+                return Err(format!("null sentinel"));
+            }
+            if !(*self.head).prev.is_null() {
+                return Err(format!("head sentinel has a predecessor"));
+            }
+            if !(*self.tail).next.is_null() {
+                return Err(format!("tail sentinel has a successor"));
+            }
+            let mut cur = (*self.head).next;
+            let mut prev = self.head;
+            loop {
+                if cur.is_null() {
+                    return Err(format!("null next pointer after {} nodes", fwd.len()));
+                }
+                if (*cur).prev != prev {
+                    return Err(format!("prev pointer mismatch at position {}", fwd.len()));
+                }
+                if cur == self.tail {
+                    break;
+                }
+                if cur == self.head {
+                    return Err(format!("head sentinel reached again after {} nodes", fwd.len()));
+                }
+                if fwd.len() > n {
+                    return Err(format!(
+                        "forward walk found more than {} nodes (index len {})",
+                        fwd.len(),
+                        n
+                    ));
+                }
+                fwd.push(cur);
+                prev = cur;
+                cur = (*cur).next;
+            }
+            // backward walk
+            let mut cnt = 0usize;
+            let mut cur = (*self.tail).prev;
+            while cur != self.head {
+                if cur.is_null() {
+                    return Err(format!("null prev pointer after {} nodes (backward)", cnt));
+                }
+                if cnt >= fwd.len() {
+                    return Err(format!("backward walk longer than forward walk ({})", fwd.len()));
+                }
+                if fwd[fwd.len() - 1 - cnt] != cur {
+                    return Err(format!("backward walk differs from forward walk at {}", cnt));
+                }
+                cnt += 1;
+                cur = (*cur).prev;
+            }
+            if cnt != fwd.len() {
+                return Err(format!(
+                    "backward walk has {} nodes, forward walk {}",
+                    cnt,
+                    fwd.len()
+                ));
+            }
+        }
+        if fwd.len() != n {
+            return Err(format!("list has {} nodes, index has {} entries", fwd.len(), n));
+        }
+        let mut sorted = fwd.clone();
+        sorted.sort();
+        for w in sorted.windows(2) {
+            if w[0] == w[1] {
+                return Err(format!("node linked twice"));
+            }
+        }
+        for (kr, node) in self.map.iter() {
+            let node = node.as_ptr();
+            if sorted.binary_search(&node).is_err() {
+                return Err(format!("index entry points to a node that is not in the list"));
+            }
+            let key_in_node = unsafe { (*node).key.as_ptr() };
+            if kr.k != key_in_node {
+                return Err(format!("index key does not point at the key stored in its own node"));
+            }
+        }
+        Ok(fwd
+            .into_iter()
+            .map(|p| unsafe { (&*(*p).key.as_ptr(), &*(*p).val.as_ptr()) })
+            .collect())
+    }
+}
+
+#[cfg(feature = "verif-hooks")]
+impl<K: Hash + Eq, V, E, S: BuildHasher> RawLRU<K, V, E, S> {
+    /// Like `verif_audit`, and additionally looks every listed key up in the index (this calls
+    /// `Hash`/`Eq` of the keys) and requires the lookup to find the key's own node.
+    #[allow(clippy::type_complexity)]
+    pub fn verif_audit_lookup(&self) -> Result<Vec<(&K, &V)>, alloc::string::String> {
+        let items = self.verif_audit()?;
+        for (i, (k, _)) in items.iter().enumerate() {
+            let kp: *const K = *k;
+            match self.map.get(&KeyRef { k: kp }) {
+                None => {
+                    return Err(alloc::format!(
+                        "key at position {} cannot be found through the index",
+                        i
+                    ))
+                }
+                Some(node) => {
+                    let key_in_node = unsafe { (*node.as_ptr()).key.as_ptr() };
+                    if key_in_node != kp {
+                        return Err(alloc::format!(
+                            "index lookup of the key at position {} finds another node",
+                            i
+                        ));
+                    }
+                }
+            }
+        }
+        Ok(items)
+    }
+}
+
 ///////////////////////////////////////////////////////////////////////////////////////////
 ///////////////////////////////////////////////////////////////////////////////////////////
 ////////////////////////////////// Iterators implementation ///////////////////////////////
